@@ -1713,7 +1713,7 @@ func init() {
 			if !ok || len(call.Args) != 1 {
 				return false
 			}
-			if f := calleeOf(info, call); f == nil || f.Name() != "DependentBodySchema" {
+			if f := calleeOf(info, call); f == nil || fname(f) != "DependentBodySchema" {
 				return false
 			}
 			return baseObj(info, call.Args[0]) == blockObj
